@@ -885,7 +885,12 @@ func freeRunning(h *verifx.H) {
 		// cache emptied with nothing in flight: every water level is back to zero
 		f.v.SetLimits(0, 0, 0)
 		f.v.Reset()
+		// the trim goroutine may be in the middle of an eviction (bucket unlinked, runtime info not yet updated): wait for
+		// the accounting to settle (condition polling) before judging it
 		info := f.v.Info()
+		for dl := time.Now().Add(10 * time.Second); (info.Size != 0 || info.Buckets != 0 || info.Chunks != 0 || info.ChunkLen != 0) && time.Now().Before(dl); info = f.v.Info() {
+			time.Sleep(200 * time.Microsecond)
+		}
 		if info.Size != 0 || info.Buckets != 0 || info.Chunks != 0 || info.ChunkLen != 0 {
 			h.Viol("accounting-nonzero-after-reset", "free-running case after reset, nothing in flight: size=%d buckets=%d chunks=%d len=%d", info.Size, info.Buckets, info.Chunks, info.ChunkLen)
 		}
